@@ -417,6 +417,18 @@ impl PageLockManager {
     pub fn stats(&self) -> &LockStats {
         &self.stats
     }
+
+    /// Number of page-lock entries currently in the shard maps (verification hook).
+    #[cfg(kahflane_turdb_verif)]
+    pub fn verif_page_entry_count(&self) -> usize {
+        self.page_shards.iter().map(|s| s.locks.lock().len()).sum()
+    }
+
+    /// Number of table-lock entries currently in the shard maps (verification hook).
+    #[cfg(kahflane_turdb_verif)]
+    pub fn verif_table_entry_count(&self) -> usize {
+        self.table_shards.iter().map(|s| s.locks.read().len()).sum()
+    }
 }
 
 #[cfg(test)]
